@@ -187,7 +187,9 @@ def render(src, v, mode='xml', tr='custom', cfg=None, route=None):
                 f.write(src)
             loader = PageTemplateLoader(LOADER_DIR[0], **kw)
             loader.load(name, 'text')(v='SAFE', h='h', str_of=str_form)
-            return loader.load(name)(v=v, h=exprs.Markup(str_form(v)), str_of=str_form)
+            out = loader.load(name)(v=v, h=exprs.Markup(str_form(v)), str_of=str_form)
+            # (a text template would hand back bytes: judged like any other rendering)
+            return out.decode('utf-8', 'replace') if isinstance(out, bytes) else out
         from vlib import routes, state
         return routes.make(cls, src, 8, state.CTX, **kw)(v=v, h=exprs.Markup(str_form(v)), str_of=str_form)
     except Exception as e:
